@@ -4,7 +4,7 @@
    arguments (panic / overflow / fuel outcomes included), so every call the MMR model makes is a call of the
    regenerated code. *)
 From Coq Require Import ZArith List Bool Lia.
-From TF Require Import Word MmrIndexGen MmrIndex MmrIndexBits MmrIndexProofs MmrIndexMain.
+From TF Require Import Word MmrIndexGen MmrIndex MmrIndexBits MmrIndexRef MmrIndexProofs MmrIndexMain.
 From TF Require Import MmrIdxLocal MmrBits MmrNodes MmrUpdates MmrAppend MmrSuccComplete.
 Import ListNotations.
 Open Scope Z_scope.
@@ -23,7 +23,8 @@ Proof.
   destruct (Z.ltb_spec i 9223372036854775808) as [Hlt|Hge].
   - destruct (leaf_index_to_node_index_val i ltac:(lits; lia)) as [-> ->]. reflexivity.
   - replace (leaf_index_to_node_index_ok i) with false; [reflexivity|].
-    unfold leaf_index_to_node_index_ok, mul_ok. lits. cbv zeta.
+    to_ref (leaf_index_to_node_index_ref i ltac:(u_range)).
+    unfold Ref.leaf_index_to_node_index_ok, mul_ok. lits. cbv zeta.
     destruct (Z.ltb_spec (2 * i) 18446744073709551616); [lia|reflexivity].
 Qed.
 
@@ -33,7 +34,8 @@ Proof.
   destruct (Z.ltb_spec n 9223372036854775808) as [Hlt|Hge].
   - destruct (num_leafs_to_num_nodes_val n ltac:(lits; lia)) as [-> ->]. reflexivity.
   - replace (num_leafs_to_num_nodes_ok n) with false; [reflexivity|].
-    unfold num_leafs_to_num_nodes_ok, mul_ok. lits. cbv zeta.
+    to_ref (num_leafs_to_num_nodes_ref n ltac:(u_range)).
+    unfold Ref.num_leafs_to_num_nodes_ok, mul_ok. lits. cbv zeta.
     destruct (Z.ltb_spec (2 * n) 18446744073709551616); [lia|reflexivity].
 Qed.
 
@@ -49,12 +51,14 @@ Proof.
     + destruct (left_sibling_val x h ltac:(lia) ltac:(lia)) as [-> ->].
       destruct (Z.ltb_spec (x - 2 ^ (h + 1) + 1) 18446744073709551616); [reflexivity|lits; lia].
     + replace (left_sibling_ok x h) with false; [reflexivity|].
-      unfold left_sibling_ok. rewrite wadd32_small by (lits; lia). rewrite wshl64_1, shift_ok_64 by lia.
+      to_ref (left_sibling_ref x h ltac:(u_range) ltac:(u_range)).
+      unfold Ref.left_sibling_ok. rewrite wadd32_small by (lits; lia). rewrite wshl64_1, shift_ok_64 by lia.
       unfold add_ok at 1, sub_ok. lits.
       destruct (Z.ltb_spec (h + 1) 4294967296); [|lia]. cbn [andb].
       destruct (Z.leb_spec (2 ^ (h + 1)) x); [lia|reflexivity].
   - replace (left_sibling_ok x h) with false; [reflexivity|].
-    unfold left_sibling_ok, add_ok at 1, shift_ok. lits.
+    to_ref (left_sibling_ref x h ltac:(u_range) ltac:(u_range)).
+    unfold Ref.left_sibling_ok, add_ok at 1, shift_ok. lits.
     destruct (Z.ltb_spec (h + 1) 4294967296) as [H32|H32]; [|reflexivity]. cbn [andb].
     rewrite wadd32_small by (lits; lia).
     destruct (Z.leb_spec 0 (h + 1)); [|lia]. destruct (Z.ltb_spec (h + 1) 64); [lia|reflexivity].
@@ -72,12 +76,14 @@ Proof.
     + destruct (right_sibling_val x h ltac:(lia) ltac:(lia) ltac:(lits; lia)) as [-> ->].
       destruct (Z.leb_spec 1 (x + 2 ^ (h + 1))); [reflexivity|lia].
     + replace (right_sibling_ok x h) with false; [reflexivity|].
-      unfold right_sibling_ok. rewrite wadd32_small by (lits; lia). rewrite wshl64_1, shift_ok_64 by lia.
+      to_ref (right_sibling_ref x h ltac:(u_range) ltac:(u_range)).
+      unfold Ref.right_sibling_ok. rewrite wadd32_small by (lits; lia). rewrite wshl64_1, shift_ok_64 by lia.
       unfold add_ok. lits.
       destruct (Z.ltb_spec (h + 1) 4294967296); [|lia]. cbn [andb].
       destruct (Z.ltb_spec (x + 2 ^ (h + 1)) 18446744073709551616); [lia|reflexivity].
   - replace (right_sibling_ok x h) with false; [reflexivity|].
-    unfold right_sibling_ok, add_ok at 1, shift_ok. lits.
+    to_ref (right_sibling_ref x h ltac:(u_range) ltac:(u_range)).
+    unfold Ref.right_sibling_ok, add_ok at 1, shift_ok. lits.
     destruct (Z.ltb_spec (h + 1) 4294967296) as [H32|H32]; [|reflexivity]. cbn [andb].
     rewrite wadd32_small by (lits; lia).
     destruct (Z.leb_spec 0 (h + 1)); [|lia]. destruct (Z.ltb_spec (h + 1) 64); [lia|reflexivity].
@@ -86,8 +92,9 @@ Qed.
 Theorem tie_leftmost_ancestor x : 0 <= x < 2 ^ 64 -> MmrIdxLocal.leftmost_ancestor x = mm_leftmost_ancestor x.
 Proof.
   intros Hx. unfold mm_leftmost_ancestor, mm_chk.
+  to_ref (leftmost_ancestor_ref x ltac:(u_range)).
   destruct (Z.eq_dec x 0) as [->|Hne]; [reflexivity|].
-  unfold MmrIdxLocal.leftmost_ancestor, leftmost_ancestor_ok, MmrIndexGen.leftmost_ancestor, leading_zeros, bitlen.
+  unfold MmrIdxLocal.leftmost_ancestor, Ref.leftmost_ancestor_ok, Ref.leftmost_ancestor, leading_zeros, bitlen.
   destruct (Z.leb_spec x 0); [lia|].
   destruct (Z.eqb_spec x 0) as [|_]; [lia|].
   pose proof (Z.log2_spec x ltac:(lia)) as Hl. pose proof (Z.log2_nonneg x) as Hn0.
@@ -108,8 +115,10 @@ Qed.
 
 Theorem tie_rll_leaf i : 0 <= i < 2 ^ 64 -> rll_leaf i = mm_right_lineage_length_from_leaf_index i.
 Proof.
-  intros Hi. unfold rll_leaf, mm_right_lineage_length_from_leaf_index, mm_chk, two64,
-    right_lineage_length_from_leaf_index_ok, right_lineage_length_from_leaf_index, add_ok.
+  intros Hi. unfold mm_right_lineage_length_from_leaf_index.
+  to_ref (right_lineage_length_from_leaf_index_ref i ltac:(u_range)).
+  unfold rll_leaf, mm_chk, two64,
+    Ref.right_lineage_length_from_leaf_index_ok, Ref.right_lineage_length_from_leaf_index, add_ok.
   lits. cbv zeta.
   destruct (Z.ltb_spec (i + 1) 18446744073709551616) as [Hlt|Hge]; cbn [andb]; [|reflexivity].
   rewrite wadd64_small by (lits; lia).
@@ -164,9 +173,10 @@ Proof.
   induction f as [|f IH]; intros c rac ni F Hc Hrac Hb Hf HF; destruct F as [|F]; try lia;
     rewrite rll_loop_eq, rll_height_loop_eq.
   - destruct (c =? ni); [reflexivity|].
-    unfold left_child_ok, sub_ok, shift_ok. change (Z.of_nat 0) with 0. cbn [Z.leb Z.ltb Z.compare andb].
+    change (Z.of_nat 0) with 0. to_ref (left_child_ref c 0 ltac:(u_range) ltac:(u_range)).
+    unfold Ref.left_child_ok, sub_ok, shift_ok. cbn [Z.leb Z.ltb Z.compare andb].
     destruct (wshl 64 1 0 <=? c); [|reflexivity]. cbv zeta.
-    change (1 <=? 0) with false. rewrite !andb_false_r. destruct (left_child c 0 <? ni); reflexivity.
+    change (1 <=? 0) with false. rewrite !andb_false_r. destruct (Ref.left_child c 0 <? ni); reflexivity.
   - destruct (c =? ni); [reflexivity|].
     pose proof (p2_nat_pos (S f)) as Hp.
     unfold sub64. destruct (Z.leb_spec (2 ^ Z.of_nat (S f)) c) as [Hle|Hgt].
@@ -181,7 +191,7 @@ Proof.
         rewrite wadd32_small by (lits; lia). apply IH; lia.
       * replace (sub_ok (Z.of_nat (S f)) 1) with true by (unfold sub_ok; symmetry; apply Z.leb_le; lia). apply IH; lia.
     + cbn [obind]. replace (left_child_ok c (Z.of_nat (S f))) with false; [reflexivity|].
-      unfold left_child_ok. rewrite wshl64_1, shift_ok_64 by lia. unfold sub_ok. cbn [andb]. symmetry. apply Z.leb_gt. lia.
+      symmetry. apply left_child_ok_small; lia.
 Qed.
 
 Lemma rll_loop_bounds : forall (f : nat) c rac ni r h, rll_loop f c (Z.of_nat f) ni rac = Some (r, h) -> 0 <= rac ->
@@ -548,7 +558,7 @@ Proof.
         destruct (MmrIdxLocal.peaks_loop hn (Z.of_nat hn) _ nc); reflexivity.
       * apply IH; lia.
     + cbn [obind]. replace (left_child_ok cand (Z.of_nat (S hn))) with false; [reflexivity|].
-      unfold left_child_ok. rewrite wshl64_1, shift_ok_64 by lia. unfold sub_ok. cbn [andb]. symmetry. apply Z.leb_gt. lia.
+      symmetry. apply left_child_ok_small; lia.
 Qed.
 
 Definition split_peaks (o : option (list (Z * Z))) : option (list Z * list Z) :=
@@ -571,8 +581,8 @@ Proof.
   pose proof (mm_chk_range64 (leaf_index_to_node_index_ok (n - 1)) (leaf_index_to_node_index (n - 1))) as Hr1.
   pose proof (mm_chk_range64 (num_leafs_to_num_nodes_ok n) (num_leafs_to_num_nodes n)) as Hr2.
   unfold mm_leaf_index_to_node_index, mm_num_leafs_to_num_nodes in *.
-  assert (Hv1 : 0 <= leaf_index_to_node_index (n - 1) < 2 ^ 64) by (unfold leaf_index_to_node_index, wadd; cbv zeta; apply wrap_range; lia).
-  assert (Hv2 : 0 <= num_leafs_to_num_nodes n < 2 ^ 64) by (unfold num_leafs_to_num_nodes, wsub; cbv zeta; apply wrap_range; lia).
+  assert (Hv1 : 0 <= leaf_index_to_node_index (n - 1) < 2 ^ 64) by (apply leaf_index_to_node_index_range; u_range).
+  assert (Hv2 : 0 <= num_leafs_to_num_nodes n < 2 ^ 64) by (apply num_leafs_to_num_nodes_range; u_range).
   unfold mm_chk at 1. destruct (leaf_index_to_node_index_ok (n - 1)); cbn [obind split_peaks]; [|reflexivity].
   unfold mm_chk at 1. destruct (num_leafs_to_num_nodes_ok n); cbn [obind split_peaks]; [|reflexivity].
   set (rm := leaf_index_to_node_index (n - 1)) in *. set (nc := num_leafs_to_num_nodes n) in *.
@@ -596,10 +606,10 @@ Proof.
           unfold sub_ok. destruct (Z.leb_spec 1 th0); cbn [obind]; [|reflexivity].
           rewrite wsub32_small by (lits; lia). reflexivity.
         * cbn [obind]. replace (left_child_ok tp0 th0) with false; [reflexivity|].
-          unfold left_child_ok. rewrite wshl64_1, shift_ok_64 by lia. unfold sub_ok. cbn [andb]. symmetry. apply Z.leb_gt. lia.
+          symmetry. apply left_child_ok_small; lia.
       + intros Hok. apply andb_true_iff in Hok. destruct Hok as [Hok1 Hok2].
         unfold sub_ok in Hok2. apply Z.leb_le in Hok2.
-        unfold left_child, wsub. split; [apply wrap_range; lia|]. rewrite wrap_small by (lits; lia). lia.
+        split; [apply left_child_range; u_range|]. unfold wsub. rewrite wrap_small by (lits; lia). lia.
     - do 2 eexists. split; [reflexivity|]. split; [reflexivity|]. split; [reflexivity|]. intros _. lia. }
   destruct Hadj as (tp & th & Eadj & Etp & Eth & Hrange). rewrite Eadj. rewrite Etp, Eth.
   destruct (if nc <? tp0 then left_child_ok tp0 th0 && sub_ok th0 1 else true); cbn [obind split_peaks]; [|reflexivity].
